@@ -278,7 +278,7 @@ fn extras(r: &mut Rng, level: u8) -> String {
         0 => "0:0:0:0:".into(),
         1 => format!("{}:{}:0:0:", r.below(4), r.below(4)),
         2 => format!("{}:{}:{}:{}:", r.below(4), r.below(4), r.below(3), r.range(0, 100)),
-        _ => format!("0:0:0:{}:{}", r.range(0, 100), r.pick(&["", "hit.wav", "a b.ogg"])),
+        _ => format!("0:0:0:{}:{}", r.range(0, 100), r.pick(&["", "hit.wav", "a b.ogg", "hit.wav", "dir\\\\f.wav", "d/\\f.wav", "\\\\h\\f.wav", "sub\\x.ogg"])),
     }
 }
 
